@@ -119,6 +119,22 @@ impl CustomRoller {
     self.write_internal(buf, now)
   }
 
+  /// Verification accessor (`--cfg excsn_fibre_verif`): constructor with an injected clock.
+  #[cfg(excsn_fibre_verif)]
+  pub fn verif_new_at_time(
+    policy: RollingPolicyInternal,
+    now: DateTime<Utc>,
+    error_tx: Option<BoundedSyncSender<InternalErrorReport>>,
+  ) -> Result<Self> {
+    Self::new_at_time(policy, now, error_tx)
+  }
+
+  /// Verification accessor (`--cfg excsn_fibre_verif`): write with an injected clock.
+  #[cfg(excsn_fibre_verif)]
+  pub fn verif_write_at_time(&mut self, buf: &[u8], now: DateTime<Utc>) -> std::io::Result<usize> {
+    self.write_internal(buf, now)
+  }
+
   /// Opens the active log file, creating it if necessary.
   fn open_file(path: &Path) -> Result<(BufWriter<File>, u64)> {
     let file = OpenOptions::new()
